@@ -1253,6 +1253,11 @@ class Interp:
                 return hook(old, st.set(key, value), fr)
             return st.set(key, value)
         if isinstance(target, ast.Attribute):
+            hook_p = getattr(self.domain, "assign_attribute", None)
+            if hook_p is not None:
+                got = hook_p(self, target, value, st, fr)   # obj.name = v where the class of obj declares name as a property: its setter runs
+                if got is not None:
+                    return got
             ch = attr_chain(target)
             if ch and fr.selfname and ch[0] == fr.selfname and len(ch) >= 3 and getattr(self.domain, "heap", False):
                 hook_on = getattr(self.domain, "store_attr_on", None)
@@ -2265,7 +2270,7 @@ class Interp:
         ch = attr_chain(func)
         if ch and len(ch) == 2 and fr.selfname and ch[0] == fr.selfname and fr.receiver is not None and classes is not None:
             owner, f = classes.resolve_method(fr.receiver, ch[1])
-            if isinstance(f, FUNC_TYPES) and owner is not None and not owner.external:
+            if isinstance(f, FUNC_TYPES) and owner is not None and (not owner.external or (owner.module.name, owner.name) in getattr(self.domain, "followed_externals", ())):
                 static = any(dotted(d) == "staticmethod" for d in f.decorator_list)
                 return f, fr.receiver, not static
         if ch and len(ch) == 2 and ch[0] == "super()" and fr.receiver is not None and classes is not None:
@@ -2273,7 +2278,7 @@ class Interp:
             owner_ci = classes.get(fr.func._module.name, own.name) if own is not None and hasattr(fr.func, "_module") else None
             if owner_ci is not None:
                 owner, f = classes.resolve_method(fr.receiver, ch[1], after=owner_ci)
-                if isinstance(f, FUNC_TYPES) and owner is not None and not owner.external:
+                if isinstance(f, FUNC_TYPES) and owner is not None and (not owner.external or (owner.module.name, owner.name) in getattr(self.domain, "followed_externals", ())):
                     return f, fr.receiver, True
         if isinstance(func, ast.Name):
             key = fr.local(func.id)
